@@ -752,11 +752,17 @@ func (tm *TaskMaster) forkPoint(p edge.PointMessage) {
 	}
 
 	// Merge the results to the forks map
-	for _, edge := range tm.forks[key] {
+	measurementForks := tm.forks[key]
+	for _, edge := range measurementForks {
 		_ = edge.Collect(p)
 	}
 
-	for _, edge := range tm.forks[emptyMeasurementKey] {
+	for name, edge := range tm.forks[emptyMeasurementKey] {
+		if _, ok := measurementForks[name]; ok {
+			// The task was already handed the point through its measurement key,
+			// both keys map to the same task edge.
+			continue
+		}
 		_ = edge.Collect(p)
 	}
 
